@@ -252,15 +252,19 @@ def c16(run):
 
 
 def c07(run):
-    run.scen("MC_MapFault", {}, small_heap=True, max_crashes=200)
+    run.scen("MC_MapFault", {"Seed": vlib.SEED % 300, "NRand": 2000 if run.thorough else 400}, small_heap=True, max_crashes=200)
     # a saved game yields the same fields as a map holding the same embedded portion (specification: MapFile!SavedGame)
     run.scen("MC_Map", {"Tier": '"%s"' % run.tier, "Seed": 1, "NRand": 0}, own=by_prefix("save_equiv", "scenario"), name="MC_Map (saved game = map)")
+
+
+def IMG_RAND(run):
+    return {"Seed": vlib.SEED % 300, "NRand": 1500 if run.thorough else 300}
 
 
 def c08(run):
     run.scen("MC_Bmp", {"MaxWidth": 70 if run.thorough else 40, "Seed": vlib.SEED % 300, "NRand": 2000 if run.thorough else 300}, own=by_prefix("bmp_", "scenario"))
     # whatever the reader accepts among the faulted images of the C11 fault model must satisfy the post-conditions C08 states
-    run.scen("MC_ImageFault", {}, small_heap=True, max_crashes=300, own=lambda m: "/postcondition" in m["site"], name="MC_ImageFault (post-conditions of accepted bitmaps)")
+    run.scen("MC_ImageFault", IMG_RAND(run), small_heap=True, max_crashes=300, own=lambda m: "/postcondition" in m["site"], name="MC_ImageFault (post-conditions of accepted bitmaps)")
 
 
 def c09(run):
@@ -272,7 +276,7 @@ def c10(run):
 
 
 def c11(run):
-    run.scen("MC_ImageFault", {}, small_heap=True, max_crashes=300, own=lambda m: "/postcondition" not in m["site"])
+    run.scen("MC_ImageFault", IMG_RAND(run), small_heap=True, max_crashes=300, own=lambda m: "/postcondition" not in m["site"])
 
 
 # ======================================================================================================
@@ -523,8 +527,9 @@ def c19(run):
 
 def c05(run):
     # VOL images: field-aware fault model (TLC) -> call scripts on long-lived and fresh objects (recorded) -> loose contract (TLC)
+    rnd = {"Seed": vlib.SEED % 300, "NRand": 1500 if run.thorough else 300}
     for module in ("MC_VolFault", "MC_ClmFault"):
-        g, r = run.scen(module, {}, log=True, max_crashes=200)
+        g, r = run.scen(module, rnd, log=True, max_crashes=200)
         lines = [l for l in open(r["log"])] if r["log"] else []
         if not lines:
             raise MachineryError(module + ": nothing was recorded")
